@@ -44,6 +44,34 @@ def concretize(v, lo, hi):
     return hi
 
 
+def native(fn, *args):
+    """Call fn(*args) with CrossHair's tracer switched off when every argument is already a concrete value
+    (the harness has case-split its time-like inputs by branching, each case being one solver-checked path).
+    The body then runs as ordinary Python - same code, ~1000x faster.  With a symbolic argument left the
+    call stays traced."""
+    try:
+        from crosshair.tracers import NoTracing, is_tracing
+    except Exception:          # pragma: no cover
+        return fn(*args)
+    if not is_tracing():
+        return fn(*args)
+    with NoTracing():
+        concrete = all(_is_concrete(a) for a in args)
+        if concrete:
+            return fn(*args)
+    return fn(*args)
+
+
+def _is_concrete(a):
+    if type(a) in (int, bool, str, float, type(None)):
+        return True
+    if type(a) in (list, tuple):
+        return all(_is_concrete(x) for x in a)
+    if type(a) is dict:
+        return all(_is_concrete(k) and _is_concrete(v) for k, v in a.items())
+    return False
+
+
 def note(tag=None, **kw):
     """record a concrete witness of the current path without constraining it"""
     if len(WITNESSES) >= MAXW:
